@@ -218,3 +218,81 @@ Proof.
   - exfalso. eapply SD; eauto.
   - intro Hin. apply in_app_or in Hin. destruct Hin as [Hin|[Hr|[]]]; [exact (D9 Hin) | apply D8; rewrite Hr; reflexivity].
 Qed.
+
+Lemma stmtdone_step s t th c s' l :
+  step_th s t th c = Some (s', l) -> thrD s th -> stmtdone s -> stmtdone s'.
+Proof.
+  intros H D SD e.
+  destruct D as [D1 [D2 [D3 [D4 [D5 [D6 [D7 [D8 D9]]]]]]]].
+  step_cases H.
+  all: autorewrite with st; try apply SD.
+  all: try (rewrite ent_w_ents_app; destruct (e =? length (s_ents s)); [cbn; discriminate | apply SD]).
+  all: rewrite ent_set_ent; autorewrite with st;
+    destruct ((e =? e0) && (e0 <? length (s_ents s))) eqn:E; [|apply SD];
+    apply andb_prop in E; destruct E as [E _]; apply Nat.eqb_eq in E; subst e0;
+    cbn [e_done e_err e_stmt]; intros Hd He; try discriminate.
+  - rewrite (D3 _ _ eq_refl). discriminate.
+  - rewrite (D4 _ eq_refl) in He. discriminate.
+Qed.
+
+(* every entry id stored in the map is allocated *)
+Definition mapvalid (s : state) : Prop :=
+  match s_map s with Some m => Forall (fun p => snd p < length (s_ents s)) m | None => True end.
+
+Lemma Forall_filter {A} (P : A -> Prop) f l : Forall P l -> Forall P (filter f l).
+Proof. induction 1; cbn; [constructor|]. destruct (f x); [constructor|]; auto. Qed.
+
+Lemma mapvalid_step s t th c s' l :
+  step_th s t th c = Some (s', l) -> mapvalid s -> mapvalid s'.
+Proof.
+  intros H M. unfold mapvalid in *.
+  step_cases H.
+  all: autorewrite with st; try rewrite upd_length; try exact M.
+  all: try (destruct (s_map s) as [m0|]; cbn [option_map]; [|exact I]).
+  all: try (apply Forall_filter; exact M).
+  all: try (constructor; fail).
+  all: try (rewrite app_length; cbn [length]; unfold insert; constructor; [cbn; lia|];
+            apply Forall_filter; eapply Forall_impl; [|exact M]; cbn; intros; lia).
+  all: try exact I.
+  all: discriminate.
+Qed.
+
+Lemma spawned_thrD s' th' :
+  (exists st, th' = mkT (D0 st) [] []) \/ (exists e, th' = mkT (C0 e) [] [] /\ e < length (s_ents s')) ->
+  thrD s' th'.
+Proof.
+  intros [[st ->]|[e [-> He]]]; unfold thrD; cbn; repeat split; try (intros; discriminate); auto.
+  intros e0 H0. inversion H0; subst. exact He.
+Qed.
+
+Record invD (s : state) : Prop := {
+  D_thr : thr_inv s (thrD s);
+  D_sd : stmtdone s;
+  D_mv : mapvalid s
+}.
+
+Lemma invD_step s t th c s' l :
+  nth_error (s_thr s) t = Some th -> step_th s t th c = Some (s', l) -> invC s -> invD s -> invD s'.
+Proof.
+  intros Ht H IC [DT SD MV].
+  pose proof (DT _ _ Ht) as Dth. cbv beta in Dth.
+  assert (SD' : stmtdone s') by (eapply stmtdone_step; eauto).
+  assert (MV' : mapvalid s') by (eapply mapvalid_step; eauto).
+  split; auto.
+  intros t' th' Hn'.
+  destruct (Nat.eq_dec t' t) as [->|Hne].
+  { exact (thrD_self _ _ _ _ _ _ Ht H IC Dth SD _ Hn'). }
+  (* another goroutine: either an old one (frame) or a freshly spawned closer *)
+  pose proof (step_ents_len _ _ _ _ _ _ H) as Hlen.
+  revert Hn'. generalize (thrD_frame _ _ _ _ _ _ t' th' Ht H IC Hne). intro F.
+  unfold mapvalid in MV.
+  step_cases H.
+  all: autorewrite with st; norm_thr; intro Hn';
+    destruct (nth_error_app_upd _ _ _ _ _ _ _ Ht Hn') as [[-> _]|[[_ Ho]|[Hi _]]];
+    [ contradiction | apply F; [exact Ho | eapply DT; exact Ho] | ].
+  all: try (destruct Hi; fail).
+  all: try (destruct Hi as [<-|[]]; apply spawned_thrD; left; eauto; fail).
+  all: apply in_closers in Hi; destruct Hi as [p [Hp ->]]; apply spawned_thrD; right; eexists; split; [reflexivity|];
+    autorewrite with st in Hlen |- *; rewrite Forall_forall in MV; specialize (MV _ Hp); lia.
+Qed.
+
